@@ -26,7 +26,7 @@ Definition users_returned (s : state) : bool :=
    returns at once (as in mr.Finish), so every user function has returned at the end *)
 Definition f4_cfg (v : variant) : config :=
   mkCfg v false 2%nat [USend 1; USend 2]
-        (fun x => if x =? 1 then [UCancel (Some 5)] else [UPanic 9]) [].
+        (fun x => if x =? 1 then [UCancel (Some 5)] else [UPanic 9]) [] false.
 Definition f4_sched : list label :=
   rep 12 [LGen; LExec false] ++ rep 8 [LMap 0] ++ rep 4 [LMain BOut] ++ rep 5 [LMap 1] ++ rep 12 others.
 
@@ -44,7 +44,7 @@ Proof. vm_compute. repeat split; reflexivity. Qed.
 (* F4-A: the reducer writes its output early, then a mapper panics: the pinned
    caller waits in its deferred `for range output` and never returns *)
 Definition f4a_cfg (v : variant) : config :=
-  mkCfg v false 2%nat [USend 1] (fun _ => [UPanic 9]) [UWrite 42].
+  mkCfg v false 2%nat [USend 1] (fun _ => [UPanic 9]) [UWrite 42] false.
 Definition f4a_sched : list label :=
   rep 12 [LGen; LExec false] ++ [LRed; LMain BOut; LRed; LRed] ++ rep 3 [LMap 0; LMain BPanic] ++ rep 12 (LMain BOut :: others).
 
@@ -61,7 +61,7 @@ Proof. vm_compute. repeat split; reflexivity. Qed.
 (* F4-B: the context ends, the caller is inside cancel -> drain(source), then the
    generator panics: its write waits for the caller, the caller waits for close(source) *)
 Definition f4b_cfg (v : variant) : config :=
-  mkCfg v false 2%nat [UPanic 3] (fun _ => []) [].
+  mkCfg v false 2%nat [UPanic 3] (fun _ => []) [] false.
 Definition f4b_sched : list label :=
   [LExec false; LExec false; LRed; LCtx] ++ rep 3 [LMain BCtx] ++ rep 4 [LGen] ++ rep 12 (LMain BOut :: others).
 
@@ -79,7 +79,7 @@ Proof. vm_compute. repeat split; reflexivity. Qed.
    pipeline runs to its end, and a caller that reaches its select late may take the
    closed output: the mapper's panic is dropped although nothing cancelled. *)
 Definition buf_cfg (v : variant) : config :=
-  mkCfg v false 1%nat [USend 1] (fun _ => [UPanic 9]) [URecvAll].
+  mkCfg v false 1%nat [USend 1] (fun _ => [UPanic 9]) [URecvAll] false.
 Definition buf_sched : list label :=
   rep 12 [LGen; LExec false] ++ rep 12 others ++ rep 4 [LMain BOut].
 
@@ -102,8 +102,9 @@ Proof. vm_compute. repeat split; reflexivity. Qed.
    reducer's send panics with the runtime's "send on closed channel"; the wrapper recovers it and
    hands it to the caller, which may re-raise it although no user function panicked.  The -race
    free run reports the close/send pair as a data race. *)
-Definition f13_cfg : config :=
-  mkCfg VFixed false 2%nat [USend 1] (fun _ => [UCancel (Some 5)]) [UWrite 42].
+Definition f13_cfg_of (safe : bool) : config :=
+  mkCfg VFixed false 2%nat [USend 1] (fun _ => [UCancel (Some 5)]) [UWrite 42] safe.
+Definition f13_cfg : config := f13_cfg_of false.
 Definition f13_sched : list label :=
   rep 12 [LGen; LExec false] ++ [LRed] ++ rep 4 [LMap 0] ++ rep 12 others ++ [LMain BPanic]
   ++ rep 12 (LMain BOut :: others).
@@ -113,12 +114,29 @@ Theorem cancel_racing_reducer_write_reraises_runtime_panic :
     g_panics s = [] /\ result s = Some (OPanic PClosed) /\ clean s = true.
 Proof. exists f13_sched. vm_compute. repeat split; reflexivity. Qed.
 
+(* the repair (pending/C10-output-never-closed.diff: output is never closed, Write selects on done):
+   under the same schedule the blocked Write is released by close(done), its value is dropped and
+   the call returns the error that was passed to cancel.  Props.safe_no_runtime_panic proves that no
+   schedule of the repaired protocol raises the runtime panic. *)
+Example repaired_cancel_racing_reducer_write_returns_cancel_error :
+  let c := f13_cfg_of true in
+  let s := run c (init c) f13_sched in
+  g_panics s = [] /\ result s = Some (OErr (ECancel 5)) /\ clean s = true /\ stuck c s = true.
+Proof. vm_compute. repeat split; reflexivity. Qed.
+
 (* why terminal_clean assumes at most two Writes of the reducer: the caller re-raises "more than
    one element written in reducer" at the second value and is gone; a third Write blocks in the
    reducer's own call for ever (nothing closes output) *)
-Definition w3_cfg : config := mkCfg VFixed false 1%nat [] (fun _ => []) [UWrite 1; UWrite 2; UWrite 3].
+Definition w3_cfg_of (safe : bool) : config := mkCfg VFixed false 1%nat [] (fun _ => []) [UWrite 1; UWrite 2; UWrite 3] safe.
+Definition w3_cfg : config := w3_cfg_of false.
 Theorem third_write_blocks :
   exists sched, let s := run w3_cfg (init w3_cfg) sched in
     result s = Some (OPanic PMulti) /\ stuck w3_cfg s = true /\ clean s = false
+    /\ redpc s = SendPend 3 [].
+Proof. exists (rep 20 (LMain BOut :: others)). vm_compute. repeat split; reflexivity. Qed.
+(* the same with the repaired output protocol: done is only closed by the reducer's wrapper or by cancel *)
+Theorem third_write_blocks_repaired :
+  exists sched, let c := w3_cfg_of true in let s := run c (init c) sched in
+    result s = Some (OPanic PMulti) /\ stuck c s = true /\ clean s = false
     /\ redpc s = SendPend 3 [].
 Proof. exists (rep 20 (LMain BOut :: others)). vm_compute. repeat split; reflexivity. Qed.
